@@ -157,13 +157,14 @@ theorem resolver_errors_mono (env : Env) : ∀ fuel : Nat,
     (∀ st n ctx nss, Ext st (lookupExact env fuel st n ctx nss).1) ∧
     (∀ st n ctx ps, Ext st (lookupPrefixes env fuel st n ctx ps).1) ∧
     (∀ st n ctx, Ext st (lookupWithPrefix env fuel st n ctx).1) ∧
-    (∀ st n ctx, Ext st (lookup env fuel st n ctx).1) := by
+    (∀ st n ctx, Ext st (lookup env fuel st n ctx).1) ∧
+    (∀ st ids, Ext st (visitAll env fuel st ids)) := by
   intro fuel
   induction fuel with
   | zero =>
-    refine ⟨?_, ?_, ?_, ?_, ?_, ?_, ?_, ?_⟩ <;> intros <;> simp [visit, depsProps, deps, depsList, lookupExact, lookupPrefixes, lookupWithPrefix, lookup] <;> exact ⟨[], by simp⟩
+    refine ⟨?_, ?_, ?_, ?_, ?_, ?_, ?_, ?_, ?_⟩ <;> intros <;> simp [visit, depsProps, deps, depsList, lookupExact, lookupPrefixes, lookupWithPrefix, lookup, visitAll] <;> exact ⟨[], by simp⟩
   | succ fuel ih =>
-    obtain ⟨iv, ip, id_, il, ie, ipf, iw, ilk⟩ := ih
+    obtain ⟨iv, ip, id_, il, ie, ipf, iw, ilk, iva⟩ := ih
     have hv : ∀ st id, Ext st (visit env (fuel + 1) st id) := by
       intro st id
       simp only [visit]
@@ -248,9 +249,24 @@ theorem resolver_errors_mono (env : Env) : ∀ fuel : Nat,
       split
       · exact h1
       · split
-        · exact h1.trans (iw _ _ _)
-        · exact h1
-    exact ⟨hv, hp, hd, hl, he, hpf, hw, hlk⟩
+        · rename_i c _
+          have h3 := iw st' c ctx
+          split
+          · exact h1.trans h3
+          · split
+            · exact (h1.trans h3).trans (iva _ _)
+            · exact h1.trans h3
+        · split
+          · rename_i hf; simp at hf
+          · split
+            · exact h1.trans (iva _ _)
+            · exact h1
+    have hva : ∀ st ids, Ext st (visitAll env (fuel + 1) st ids) := by
+      intro st ids
+      cases ids with
+      | nil => simp [visitAll]; exact Ext.refl _
+      | cons i rest => simp only [visitAll]; exact (iv _ _).trans (iva _ _)
+    exact ⟨hv, hp, hd, hl, he, hpf, hw, hlk, hva⟩
 
 theorem visit_errors_mono (env : Env) (fuel : Nat) (st : RS) (id : Id) :
     ∃ extra, (visit env fuel st id).errors = st.errors ++ extra :=
